@@ -2,10 +2,14 @@ package main
 
 // ratelimit component: drives ratelimit.TokenLimiter (real TTL map, real buckets) under oxy's frozen clock.
 //
-// cfg: [capacity, start_ns, nrates, (period_ns average burst)*]   rates sorted by period, periods distinct
+// cfg: [capacity, start_ns, nrates, (period_ns average burst)*, nalts, (nrates, (period_ns average burst)*)*]
+//      rates sorted by period, periods distinct; the alternatives (optional) are the rate sets a request's rate extractor
+//      (ratelimit.ExtractRates) may return
 // ops: [0 src amount hint] request of a source; hint = the source the implementation evicted (-1 none), filled in by Run
 //      [1 d]               advance the clock by d ns
 //      [2]                 advance the clock by the delay advertised to the last rejected request
+//      [2 sel src amount hint] request for which the rate extractor returns alternative #sel; sel = nalts: the extractor fails,
+//                          sel > nalts: it returns an empty set (the default rates apply in both cases)
 // obs (request): [class(0 admitted,1 rejected,2 error), delay_ns, evicted source or -1, tracked sources, avail of each bucket of the source]
 // Monitors: C03 (window bound per source and rate), C13 (rejections cost nothing, advertised wait suffices, idle regain,
 // over-burst is an error), C14 (decisions of a source equal its solo run; eviction victim has minimal expiry; others untouched).
@@ -44,12 +48,20 @@ type limiter struct {
 	calls int
 }
 
-func newLimiter(capacity int64, rates []rateSpec) (*limiter, error) {
+func rateSetOf(rates []rateSpec) (*ratelimit.RateSet, error) {
 	rs := ratelimit.NewRateSet()
 	for _, r := range rates {
 		if err := rs.Add(time.Duration(r.period), r.average, r.burst); err != nil {
 			return nil, err
 		}
+	}
+	return rs, nil
+}
+
+func newLimiter(capacity int64, rates []rateSpec, alts [][]rateSpec) (*limiter, error) {
+	rs, err := rateSetOf(rates)
+	if err != nil {
+		return nil, err
 	}
 	l := &limiter{}
 	next := http.HandlerFunc(func(w http.ResponseWriter, req *http.Request) {
@@ -60,7 +72,24 @@ func newLimiter(capacity int64, rates []rateSpec) (*limiter, error) {
 		amount, _ := strconv.ParseInt(req.Header.Get("X-Amount"), 10, 64)
 		return req.Header.Get("X-Source"), amount, nil
 	})
-	tl, err := ratelimit.New(next, extract, rs, ratelimit.Capacity(int(capacity)))
+	opts := []ratelimit.TokenLimiterOption{ratelimit.Capacity(int(capacity))}
+	if len(alts) > 0 {
+		opts = append(opts, ratelimit.ExtractRates(ratelimit.RateExtractorFunc(func(req *http.Request) (*ratelimit.RateSet, error) {
+			h := req.Header.Get("X-Rates")
+			if h == "" {
+				return ratelimit.NewRateSet(), nil // nothing configured for this request: defaults
+			}
+			sel, _ := strconv.Atoi(h)
+			switch {
+			case sel < len(alts):
+				return rateSetOf(alts[sel])
+			case sel == len(alts):
+				return nil, fmt.Errorf("rate lookup failed")
+			}
+			return ratelimit.NewRateSet(), nil
+		})))
+	}
+	tl, err := ratelimit.New(next, extract, rs, opts...)
 	if err != nil {
 		return nil, err
 	}
@@ -70,7 +99,14 @@ func newLimiter(capacity int64, rates []rateSpec) (*limiter, error) {
 
 // request returns class, delay, and whether the protected handler ran.
 func (l *limiter) request(src, amount int64) (int64, int64, bool, string) {
+	return l.requestWith(src, amount, -1)
+}
+
+func (l *limiter) requestWith(src, amount, sel int64) (int64, int64, bool, string) {
 	req := httptest.NewRequest(http.MethodGet, "http://example.com/", nil)
+	if sel >= 0 {
+		req.Header.Set("X-Rates", strconv.FormatInt(sel, 10))
+	}
 	req.Header.Set("X-Source", srcName(src))
 	req.Header.Set("X-Amount", strconv.FormatInt(amount, 10))
 	rec := httptest.NewRecorder()
@@ -101,29 +137,134 @@ func srcID(n string) int64 {
 	return v
 }
 
-func decodeCfg(cfg []int64) (capacity, start int64, rates []rateSpec, ok bool) {
-	if len(cfg) < 3 || int64(len(cfg)) != 3+3*cfg[2] || cfg[2] < 1 {
-		return 0, 0, nil, false
+func decodeRates(l []int64) (rates []rateSpec, rest []int64, ok bool) {
+	if len(l) < 1 || l[0] < 1 || l[0] > 8 || int64(len(l)) < 1+3*l[0] {
+		return nil, nil, false
 	}
-	capacity, start = cfg[0], cfg[1]
 	seen := map[int64]bool{}
-	for i := int64(0); i < cfg[2]; i++ {
-		r := rateSpec{cfg[3+3*i], cfg[4+3*i], cfg[5+3*i]}
+	for i := int64(0); i < l[0]; i++ {
+		r := rateSpec{l[1+3*i], l[2+3*i], l[3+3*i]}
 		if r.period <= 0 || r.average <= 0 || r.burst <= 0 || seen[r.period] {
-			return 0, 0, nil, false
+			return nil, nil, false
 		}
 		if i > 0 && r.period < rates[i-1].period {
-			return 0, 0, nil, false
+			return nil, nil, false
 		}
 		seen[r.period] = true
 		rates = append(rates, r)
 	}
-	return capacity, start, rates, capacity >= 1
+	return rates, l[1+3*l[0]:], true
+}
+
+func decodeCfgAlts(cfg []int64) (capacity, start int64, rates []rateSpec, alts [][]rateSpec, ok bool) {
+	if len(cfg) < 3 {
+		return 0, 0, nil, nil, false
+	}
+	capacity, start = cfg[0], cfg[1]
+	rates, rest, ok := decodeRates(cfg[2:])
+	if !ok {
+		return 0, 0, nil, nil, false
+	}
+	if len(rest) > 0 {
+		na := rest[0]
+		rest = rest[1:]
+		if na < 0 || na > 8 {
+			return 0, 0, nil, nil, false
+		}
+		for i := int64(0); i < na; i++ {
+			var a []rateSpec
+			a, rest, ok = decodeRates(rest)
+			if !ok {
+				return 0, 0, nil, nil, false
+			}
+			alts = append(alts, a)
+		}
+		if len(rest) != 0 {
+			return 0, 0, nil, nil, false
+		}
+	}
+	return capacity, start, rates, alts, capacity >= 1
+}
+
+func decodeCfg(cfg []int64) (capacity, start int64, rates []rateSpec, ok bool) {
+	capacity, start, rates, _, ok = decodeCfgAlts(cfg)
+	return
 }
 
 var periodChoices = []int64{1e9, 1e9, 2e9, 5e9, 10e9, 60e9, 5e8, 15e8}
 
+// genDynamic: a limiter with a rate extractor. Few sources around a small capacity; requests carry alternative rate sets
+// with longer and shorter periods than the defaults, so that a source's period set, and with it the lifetime of its
+// entry, changes back and forth; new sources arrive while the limiter is full.
+func genDynamic(rng *rand.Rand, tier string) hlib.History {
+	var h hlib.History
+	mk := func(n int) []rateSpec {
+		used := map[int64]bool{}
+		var rs []rateSpec
+		for len(rs) < n {
+			p := periodChoices[rng.Intn(len(periodChoices))]
+			if used[p] {
+				continue
+			}
+			used[p] = true
+			avg := hlib.Pick(rng, 1, 2, 3, 5, 10)
+			rs = append(rs, rateSpec{p, avg, 1 + rng.Int63n(3*avg)})
+		}
+		sort.Slice(rs, func(i, j int) bool { return rs[i].period < rs[j].period })
+		return rs
+	}
+	rates := mk(1 + rng.Intn(2))
+	nalts := 1 + rng.Intn(3)
+	capacity := int64(2 + rng.Intn(3))
+	nsrc := int(capacity) + rng.Intn(3)
+	start := int64(1600000000)*1e9 + rng.Int63n(3e9)
+	h.Cfg = []int64{capacity, start, int64(len(rates))}
+	for _, r := range rates {
+		h.Cfg = append(h.Cfg, r.period, r.average, r.burst)
+	}
+	h.Cfg = append(h.Cfg, int64(nalts))
+	for i := 0; i < nalts; i++ {
+		a := mk(1 + rng.Intn(2))
+		h.Cfg = append(h.Cfg, int64(len(a)))
+		for _, r := range a {
+			h.Cfg = append(h.Cfg, r.period, r.average, r.burst)
+		}
+	}
+	req := func(src int64) {
+		if rng.Intn(2) == 0 {
+			h.Ops = append(h.Ops, []int64{2, int64(rng.Intn(nalts + 2)), src, 1 + int64(rng.Intn(2)), -1})
+		} else {
+			h.Ops = append(h.Ops, []int64{0, src, 1 + int64(rng.Intn(2)), -1})
+		}
+	}
+	nops := 20 + rng.Intn(60)
+	if tier == "thorough" {
+		nops = 40 + rng.Intn(200)
+	}
+	for len(h.Ops) < nops {
+		switch r := rng.Intn(10); {
+		case r < 6:
+			req(int64(rng.Intn(nsrc)))
+		case r < 7: // one source switches between rate sets, others fill the limiter, a new source arrives
+			a := int64(rng.Intn(nsrc))
+			h.Ops = append(h.Ops, []int64{2, int64(rng.Intn(nalts)), a, 1, -1})
+			req(a)
+			h.Ops = append(h.Ops, []int64{1, rng.Int63n(3e9)})
+			for k := 0; k < int(capacity); k++ {
+				req(int64(rng.Intn(nsrc)))
+			}
+			req(int64(nsrc + rng.Intn(3)))
+		default:
+			h.Ops = append(h.Ops, []int64{1, hlib.Pick(rng, 1, 1e8, 1e9, 1e9, 3e9, 11e9, 30e9, 101e9, 700e9)})
+		}
+	}
+	return h
+}
+
 func (c *rlComp) Gen(rng *rand.Rand, idx int, tier string, targeted bool) hlib.History {
+	if !targeted && rng.Intn(6) == 0 {
+		return genDynamic(rng, tier)
+	}
 	var h hlib.History
 	nr := 1 + rng.Intn(3)
 	if rng.Intn(2) == 0 {
@@ -288,16 +429,22 @@ type srcState struct {
 }
 
 func (c *rlComp) Run(h *hlib.History) ([]hlib.Mon, bool) {
-	capacity, start, rates, ok := decodeCfg(h.Cfg)
+	capacity, start, rates, alts, ok := decodeCfgAlts(h.Cfg)
 	if !ok {
 		return nil, false
 	}
-	l, err := newLimiter(capacity, rates)
+	l, err := newLimiter(capacity, rates, alts)
 	if err != nil {
 		return nil, false
 	}
 	clock.Freeze(time.Unix(0, start).UTC())
 	defer clock.Unfreeze()
+	dyn := false // some request carries its own rates: the fixed-rate monitors (C03 window, C13) do not apply
+	for _, op := range h.Ops {
+		if len(op) == 5 && op[0] == 2 {
+			dyn = true
+		}
+	}
 	now := start
 	var mons []hlib.Mon
 	add := func(prop string, step int, format string, a ...interface{}) {
@@ -323,13 +470,21 @@ func (c *rlComp) Run(h *hlib.History) ([]hlib.Mon, bool) {
 		}
 	}
 	states := map[int64]*srcState{}
+	expTruth := map[string]int64{} // expiry second of every source by the documented rule, from the harness's own bookkeeping
 	distinct := map[int64]bool{}
 	var lastDelay int64
 	for step := range h.Ops {
 		op := h.Ops[step]
+		isDyn := len(op) == 5 && op[0] == 2
 		switch {
-		case len(op) >= 3 && op[0] == 0:
-			src, amount := op[1], op[2]
+		case (len(op) >= 3 && op[0] == 0) || isDyn:
+			src, amount, sel := op[1], op[2], int64(-1)
+			if isDyn {
+				sel, src, amount = op[1], op[2], op[3]
+				if len(alts) == 0 || sel < 0 || sel > int64(len(alts))+1 {
+					return nil, false
+				}
+			}
 			if amount < 1 || src < 0 || src > 999 {
 				return nil, false
 			}
@@ -348,7 +503,7 @@ func (c *rlComp) Run(h *hlib.History) ([]hlib.Mon, bool) {
 				availBefore[k] = a
 				expBefore[k] = e
 			}
-			class, delay, ran, problem := l.request(src, amount)
+			class, delay, ran, problem := l.requestWith(src, amount, sel)
 			keysAfter := l.tl.VerifKeys()
 			after := map[string]bool{}
 			for _, k := range keysAfter {
@@ -365,6 +520,9 @@ func (c *rlComp) Run(h *hlib.History) ([]hlib.Mon, bool) {
 			}
 			avail, _, tracked := l.tl.VerifAvail(srcName(src))
 			h.Ops[step] = []int64{0, src, amount, evicted}
+			if isDyn {
+				h.Ops[step] = []int64{2, sel, src, amount, evicted}
+			}
 			obs := []int64{class, delay, evicted, int64(len(keysAfter))}
 			obs = append(obs, avail...)
 			h.Obs = append(h.Obs, obs)
@@ -380,6 +538,9 @@ func (c *rlComp) Run(h *hlib.History) ([]hlib.Mon, bool) {
 			}
 
 			// ---- C13 monitors ----
+			if dyn {
+				goto c14
+			}
 			if amount > minBurst && class != 2 {
 				add("C13", step, "amount %d exceeds a burst (%d) but the request was not refused with an error (class %d)", amount, minBurst, class)
 			}
@@ -415,6 +576,7 @@ func (c *rlComp) Run(h *hlib.History) ([]hlib.Mon, bool) {
 			}
 
 			// ---- C14 monitors: eviction ----
+		c14:
 			if evicted != -1 {
 				min := int(1 << 62)
 				for _, e := range expBefore {
@@ -425,6 +587,18 @@ func (c *rlComp) Run(h *hlib.History) ([]hlib.Mon, bool) {
 				if expBefore[srcName(evicted)] != min {
 					add("C14", step, "forgotten source %d had expiry %d but the nearest expiry was %d", evicted, expBefore[srcName(evicted)], min)
 				}
+				minT, have := int64(1<<62), true
+				for _, k := range keysBefore {
+					t, ok := expTruth[k]
+					have = have && ok
+					if t < minT {
+						minT = t
+					}
+				}
+				if t, ok := expTruth[srcName(evicted)]; have && ok && t != minT {
+					add("C14", step, "forgotten source %d was due to expire at second %d (its last request + 10 x its longest period + 1 s) but a tracked source was due at %d", evicted, t, minT)
+				}
+				delete(expTruth, srcName(evicted))
 				if int64(len(keysBefore)) < capacity {
 					add("C14", step, "source %d forgotten although only %d of %d sources were tracked", evicted, len(keysBefore), capacity)
 				}
@@ -447,6 +621,19 @@ func (c *rlComp) Run(h *hlib.History) ([]hlib.Mon, bool) {
 			}
 
 			// bookkeeping
+			{
+				eff := rates
+				if sel >= 0 && sel < int64(len(alts)) {
+					eff = alts[sel]
+				}
+				var mp int64
+				for _, r := range eff {
+					if r.period > mp {
+						mp = r.period
+					}
+				}
+				expTruth[srcName(src)] = now/1e9 + (mp/1e9)*10 + 1
+			}
 			if class == 0 {
 				st.admitted = append(st.admitted, admitEv{now, amount})
 			}
@@ -484,7 +671,7 @@ func (c *rlComp) Run(h *hlib.History) ([]hlib.Mon, bool) {
 	}
 
 	// ---- C03: the window bound, guaranteed when sources fit the capacity and bursts refill while remembered ----
-	if int64(len(distinct)) <= capacity && refillOK {
+	if int64(len(distinct)) <= capacity && refillOK && !dyn {
 		for src, st := range states {
 			ev := st.admitted
 			for _, r := range rates {
@@ -509,7 +696,7 @@ func (c *rlComp) Run(h *hlib.History) ([]hlib.Mon, bool) {
 	// ---- C14: decisions of each source equal those of its solo run (sources within capacity) ----
 	if int64(len(distinct)) <= capacity && len(distinct) > 1 {
 		for src, st := range states {
-			solo := c.solo(h, src, capacity, start, rates)
+			solo := c.solo(h, src, capacity, start, rates, alts)
 			for i := range st.decisions {
 				if i >= len(solo) || solo[i] != st.decisions[i] {
 					add("C14", -1, "ratelimit: decision %d of source %d is %d in the interleaving but %v alone", i, src, st.decisions[i], solo)
@@ -522,8 +709,8 @@ func (c *rlComp) Run(h *hlib.History) ([]hlib.Mon, bool) {
 }
 
 // solo replays only the requests of one source (and all clock advances) on a fresh limiter.
-func (c *rlComp) solo(h *hlib.History, src, capacity, start int64, rates []rateSpec) []int64 {
-	l, err := newLimiter(capacity, rates)
+func (c *rlComp) solo(h *hlib.History, src, capacity, start int64, rates []rateSpec, alts [][]rateSpec) []int64 {
+	l, err := newLimiter(capacity, rates, alts)
 	if err != nil {
 		return nil
 	}
@@ -533,10 +720,18 @@ func (c *rlComp) solo(h *hlib.History, src, capacity, start int64, rates []rateS
 	var lastDelay int64
 	// WaitAdvertised refers to the interleaved run's delays; recompute them from the recorded observations
 	for i, op := range h.Ops {
-		switch op[0] {
+		kind := op[0]
+		if kind == 2 && len(op) == 5 {
+			kind = 0
+		}
+		switch kind {
 		case 0:
-			if op[1] == src {
-				class, _, _, _ := l.request(op[1], op[2])
+			rsrc, amount, sel := op[1], op[2], int64(-1)
+			if op[0] == 2 {
+				sel, rsrc, amount = op[1], op[2], op[3]
+			}
+			if rsrc == src {
+				class, _, _, _ := l.requestWith(rsrc, amount, sel)
 				out = append(out, class)
 			}
 			if i < len(h.Obs) && len(h.Obs[i]) >= 2 && h.Obs[i][0] == 1 {
@@ -560,15 +755,26 @@ func (c *rlComp) solo(h *hlib.History, src, capacity, start int64, rates []rateS
 }
 
 func (c *rlComp) Describe(h *hlib.History) interface{} {
-	capacity, start, rates, _ := decodeCfg(h.Cfg)
+	capacity, start, rates, alts, _ := decodeCfgAlts(h.Cfg)
 	var rs []string
 	for _, r := range rates {
 		rs = append(rs, fmt.Sprintf("%v: average %d burst %d", time.Duration(r.period), r.average, r.burst))
+	}
+	for i, a := range alts {
+		for _, r := range a {
+			rs = append(rs, fmt.Sprintf("alternative %d: %v: average %d burst %d", i, time.Duration(r.period), r.average, r.burst))
+		}
 	}
 	var ops []string
 	for i, op := range h.Ops {
 		var s string
 		switch op[0] {
+		case 2:
+			if len(op) == 5 {
+				s = fmt.Sprintf("Req(src=%d,amount=%d,rates=alternative %d)", op[2], op[3], op[1])
+			} else {
+				s = "WaitAdvertised"
+			}
 		case 0:
 			s = fmt.Sprintf("Req(src=%d,amount=%d)", op[1], op[2])
 		case 1:
@@ -599,10 +805,16 @@ func (c *rlComp) Nontrivial(h *hlib.History) string {
 	var adm, rej, errs, evict int64
 	srcs := map[int64]bool{}
 	for i, op := range h.Ops {
-		if op[0] != 0 || i >= len(h.Obs) {
+		dynReq := op[0] == 2 && len(op) == 5
+		if (op[0] != 0 && !dynReq) || i >= len(h.Obs) {
 			continue
 		}
-		srcs[op[1]] = true
+		if dynReq {
+			hlib.Count("requests_with_extracted_rates", 1)
+			srcs[op[2]] = true
+		} else {
+			srcs[op[1]] = true
+		}
 		switch h.Obs[i][0] {
 		case 0:
 			adm++
